@@ -37,18 +37,33 @@ extern "C" void __ubsan_on_report(void) { vf::on_death(); }
 namespace {
 
 // ---------------------------------------------------------------------------------------------- types
-#define C10_TYPES(X)                                                                                                   \
-    X(char, "char")                                                                                                    \
-    X(signed char, "i8")                                                                                               \
-    X(unsigned char, "u8")                                                                                             \
-    X(short, "i16")                                                                                                    \
-    X(unsigned short, "u16")                                                                                           \
-    X(int, "i32")                                                                                                      \
-    X(unsigned, "u32")                                                                                                 \
-    X(long, "l")                                                                                                       \
-    X(unsigned long, "ul")                                                                                             \
-    X(long long, "ll")                                                                                                 \
-    X(unsigned long long, "ull")
+// The file is compiled twice (registry flags -DC10_FMT_PART=1 / =2) so that the two halves build in parallel:
+// part 1 = the 8- and 16-bit types (complete enumeration), part 2 = the 32/64-bit types + to_string; 0 = everything.
+#if !defined(C10_FMT_PART)
+    #define C10_FMT_PART 0
+#endif
+#if C10_FMT_PART != 2
+    #define C10_SMALL_TYPES(X)                                                                                         \
+        X(char, "char")                                                                                                \
+        X(signed char, "i8")                                                                                           \
+        X(unsigned char, "u8")                                                                                         \
+        X(short, "i16")                                                                                                \
+        X(unsigned short, "u16")
+#else
+    #define C10_SMALL_TYPES(X)
+#endif
+#if C10_FMT_PART != 1
+    #define C10_WIDE_TYPES(X)                                                                                          \
+        X(int, "i32")                                                                                                  \
+        X(unsigned, "u32")                                                                                             \
+        X(long, "l")                                                                                                   \
+        X(unsigned long, "ul")                                                                                         \
+        X(long long, "ll")                                                                                             \
+        X(unsigned long long, "ull")
+#else
+    #define C10_WIDE_TYPES(X)
+#endif
+#define C10_TYPES(X) C10_SMALL_TYPES(X) C10_WIDE_TYPES(X)
 
 template <typename T>
 constexpr auto tname() -> char const*;
@@ -310,7 +325,8 @@ void one_roundtrip(T v, int base, char const* ref, int n)
     ++g_loc.ev[RoundTrip];
     if (r.ec != etl::errc{} || r.ptr != b + n) {
         // reported by the to_chars sub-property as well; here it means the round trip cannot even start
-        FAIL("roundtrip", k, "round trip <%s>(%s, base %d): to_chars into the exact-fit %d-byte buffer fails (ec=%d)", tname<T>(), vstr(v).c_str(), base, n, static_cast<int>(r.ec));
+        FAIL("roundtrip", k, "round trip <%s>(%s, base %d): to_chars into the exact-fit %d-byte buffer does not produce the %d characters of %s (ec=%d, %ld characters written)", tname<T>(), vstr(v).c_str(), base, n, n,
+            vis(ref, static_cast<std::size_t>(n)).c_str(), static_cast<int>(r.ec), r.ec == etl::errc{} ? static_cast<long>(r.ptr - b) : -1L);
     }
     T back         = static_cast<T>(v == T(0) ? 1 : 0); // differs from v
     auto const p   = etl::from_chars(static_cast<char const*>(b), static_cast<char const*>(b + n), back, base);
@@ -405,6 +421,12 @@ void sweep_small(vf::Ctx& c, std::vector<int> const& bases, std::uint64_t& item)
             if (!c.mine(item++)) { continue; }
             long hi = std::min<long>(lo + blk - 1, L::max());
             for (long x = lo; x <= hi; ++x) { point(static_cast<T>(x), base, sizeof(T) == 1 || base == 10 || (x & 63) == 0); }
+            if (lo == static_cast<long>(L::min()) && (base == 2 || base == 36)) {
+                char ref[80];
+                T const v   = L::min();
+                int const n = ref_digits(v, base, ref);
+                vf::sample("to_chars", [&] { return std::string("to_chars<") + tname<T>() + ">(" + vstr(v) + ", base " + std::to_string(base) + ") == " + vis(ref, static_cast<std::size_t>(n)) + ", buffer lengths 0.." + std::to_string(n + 2) + " (heap + canary), then every other value of the type"; });
+            }
         }
         flush_stats();
     }
@@ -492,6 +514,7 @@ void vf_run(vf::Ctx& c)
 {
     vf::Rng rng(c.seed);
     std::uint64_t item = 0;
+#if C10_FMT_PART != 2
     // 1. 8-bit types: every value, every base 2..36, every buffer length, both buffer kinds (both tiers)
     std::vector<int> all;
     for (int b = 2; b <= 36; ++b) { all.push_back(b); }
@@ -501,6 +524,8 @@ void vf_run(vf::Ctx& c)
     // 2. 16-bit types: every value; quick: bases {2,8,10,16,36}; thorough: all 35 bases
     sweep_small<short>(c, bases16(c.thorough()), item);
     sweep_small<unsigned short>(c, bases16(c.thorough()), item);
+#endif
+#if C10_FMT_PART != 1
     // 3. 32/64-bit types: boundary values for every base
     sweep_wide<int>(c, item);
     sweep_wide<unsigned>(c, item);
@@ -524,6 +549,8 @@ void vf_run(vf::Ctx& c)
     sweep_to_string<unsigned long>(c, rng);
     sweep_to_string<long long>(c, rng);
     sweep_to_string<unsigned long long>(c, rng);
+#endif
+    (void)item;
     flush_stats();
     vf::stats().exhaustive = true;
 }
